@@ -76,6 +76,23 @@ CLAIMS = {
                 'plus end-to-end sums on the real evaluator.',
         'design_ref': 'DESIGN.md §6 C16',
     },
+    'C09': {
+        'text': 'C09_parse_total: for EVERY byte string (a superset of valid UTF-8) none of the six parsers of the model panics - every byte-offset slice is taken only after a recogniser '
+                'has pinned the bytes before it to ASCII; C09_use_total: every token that parses satisfies the order conditions its expansion relies on (TokenOk), so expansion and printing '
+                'cannot panic; C09_range_views_total: rank_pairs / orphan_card_pairs / Display never panic for any range; C09_range_total: a parsed range can be evaluated on any flop beside '
+                'any other proper ranges without panic (via C08_total).',
+        'note': 'Lean kernel + standard axioms; hand-written model of the parsers with Rust\'s char-boundary slicing semantics (Model/Basic.lean) tied by the correspondence (all strings of length <= 3 over a '
+                '24-symbol alphabet incl. multi-byte characters, all seven shapes with arbitrary ranks, multi-byte splices, over-long input); regex crate modelled by recognisers (pattern literals read from the source).',
+        'design_ref': 'DESIGN.md §6 C09',
+    },
+    'C10': {
+        'text': 'C10_combo: whatever string is parsed as a range, every entry is a combo of two different valid cards; C10_weight(_token): every weight is in the weight domain given only that texts '
+                'of the weight grammar parse into it, that 1 is in it and that the empty text is not a number; C10_grammar: the grammar admits exactly 0, 0.d+, 1, 1.0+; C10_prob: products from 1 stay in '
+                'any domain closed under the product; C10_cards: no enumerated showdown holds a card twice (C02_payload).',
+        'note': 'Lean kernel + standard axioms; assumptions about f32 (named hypotheses, validated by the harness): f32::from_str maps decimals of the grammar into [0,1], "" is not a number, binary32 '
+                'multiplication maps [0,1]x[0,1] into [0,1]; model tied by the correspondence (2,222 weight literals, all 52x52 card-pair tokens, probabilities of enumerated showdowns).',
+        'design_ref': 'DESIGN.md §6 C10',
+    },
     'C07': {
         'text': 'Theorem C07: for seven distinct cards the category given by the interval arms read from the source equals the rule-book category of the strongest '
                 'five-card hand (C07_intervals proved symbolically for all indexes 1..7462; combined with C01 and the numbering theorem).',
